@@ -348,8 +348,15 @@ func (fr *Frame) modNamesStatic(c *Contract, callee *ssa.Function, cc *ssa.CallC
 	var out []string
 	env := vc.calleeTypeEnv(c, callee, cc)
 	for _, m := range c.Modifies {
-		names := env.modNames(m.E)
-		out = append(out, names...)
+		// contents(p) with p a pointer parameter: the memory written is whatever the ARGUMENT points into
+		// (a field of a struct value, an element of a slice), not the callee-side generic cell heap
+		if callee != nil {
+			if k := contentsPtrParam(m.E, callee); k >= 0 && k < len(cc.Args) {
+				out = append(out, fr.staticHeapNames(cc.Args[k])...)
+				continue
+			}
+		}
+		out = append(out, env.modNames(m.E)...)
 	}
 	out = append(out, "$alloc")
 	return out
@@ -652,12 +659,16 @@ func (fr *Frame) applyModifies(env *SpecEnv, c *Contract, pre *Heap) *Heap {
 	type loc struct{ ref, idx Term }
 	byName := map[string][]loc{}
 	whole := map[string]bool{}
+	var subs []*Ptr
 	for _, m := range c.Modifies {
 		for _, l := range env.modLocs(m.E) {
 			if l.Whole {
 				whole[l.Heap] = true
 			} else {
 				byName[l.Heap] = append(byName[l.Heap], loc{l.Ref, l.Idx})
+				if l.Sub != nil {
+					subs = append(subs, l.Sub)
+				}
 			}
 		}
 	}
@@ -684,6 +695,21 @@ func (fr *Frame) applyModifies(env *SpecEnv, c *Contract, pre *Heap) *Heap {
 			ne = append(ne, not(eq("r", l.ref)))
 		}
 		vc.S.Assert(fmt.Sprintf("(forall ((r Int)) (! (=> (and (select %s r) %s) (= (select %s r) (select %s r))) :pattern ((select %s r))))", al, and(ne...), newA, oldA, newA))
+	}
+	// a pointer into the middle of a slot (field of a struct value, element of an array): everything in the
+	// slot except the pointed-to part keeps its value. Only stated when the slot is named once.
+	for _, p := range subs {
+		if whole[p.Heap] || len(byName[p.Heap]) != 1 {
+			continue
+		}
+		if p.Idx != "" {
+			oldA, newA := pre.Get(p.Heap), post.Get(p.Heap)
+			vc.S.Assert(fmt.Sprintf("(forall ((j Int)) (! (=> (not (= j %s)) (= (select (select %s %s) j) (select (select %s %s) j))) :pattern ((select (select %s %s) j))))", p.Idx, newA, p.Ref, oldA, p.Ref, newA, p.Ref))
+		}
+		if len(p.Path) > 0 {
+			oldS, newS := vc.slotGet(p, pre), vc.slotGet(p, post)
+			vc.S.Assert(eq(newS, vc.pathSet(oldS, p.Path, vc.pathGet(newS, p.Path))))
+		}
 	}
 	return post
 }
